@@ -22,6 +22,14 @@ import (
 // where bound is the LARGEST `allowing overdraft up to X` the account appears
 // with anywhere in the script (0 if none), so the check never demands more than
 // the property does when an account carries different clauses.
+//
+// On top of the shared space (space_ext.go): X1 = word-sized amounts and balances through
+// allotments; X2a = sums / differences of monetaries as amount, `max`, overdraft bound (a
+// bound that evaluates negative counts as 0); X2b = `save <sum / difference> from A`
+// followed by a send drawing on A. A difference is the only way to hand the machine a
+// NEGATIVE monetary; `save` is not in the property's formula, so whatever it is asked to
+// save, A must still end >= min(initial, -bound) (signature suffix
+// :after-save-of-negative-amount when an earlier save names the account with an amount < 0).
 func init() { reg.Register("C23", c23) }
 
 type c23Local struct {
@@ -39,8 +47,19 @@ func c23() int {
 	tuneRuntime()
 	r := ev.Start("C23", ev.LevelExploration, 100*time.Second, 15*time.Minute)
 	sp := numscriptSpace(r.Thorough())
+	// X1 (word-sized amounts and balances through allotments), X2a (sums / differences of
+	// monetaries as amount, `max`, overdraft bound) and X2b (`save <expr> from A` ; send): see
+	// space_ext.go. They are small and run first.
+	x1, x1Rule := largeAmountStage(r.Thorough())
+	x2, x2Rule := exprStages(r.Thorough(), true)
+	sp.Stages = append(append([]stage{x1}, x2...), sp.Stages...)
+	sp.Rule += "; " + x1Rule + "; " + x2Rule
 	samples := ev.NewSamples(6)
 	var nontrivial, accountsChecked, pairsChecked, atFloorRuns, overdraftUsedRuns, bindingPrograms, unboundedSkipped atomic.Int64
+	// successful runs where an earlier `save` of a NEGATIVE amount (a difference) names an account that a
+	// later send debits as a bounded source; same for an overdraft bound that evaluates negative
+	var negSaveThenDebit, exprSaveRuns, negBoundRuns, wordSizedChecked atomic.Int64
+	two63 := new(big.Int).Lsh(big.NewInt(1), 63)
 
 	flush := func(l *c23Local) {
 		if l.atFloor && l.siblingKO {
@@ -91,6 +110,25 @@ func c23() int {
 			if len(res.Postings) > 0 {
 				l.nontrivial = true
 			}
+			// what the run exercised of the save / expression dimension
+			negSaved := map[string]bool{} // accounts named by a `save` whose amount evaluates < 0
+			exprSave := false
+			for _, st := range pc.P.Stmts {
+				if st.K == gen.StSave && !st.All && st.Amt.IsExpr() {
+					exprSave = true
+					if acc, ok := env.Account(st.Acc); ok {
+						if _, v, ok := env.Monetary(st.Amt); ok && v.Sign() < 0 {
+							negSaved[acc] = true
+						}
+					}
+				}
+			}
+			if exprSave {
+				exprSaveRuns.Add(1)
+			}
+			if srcHasNegativeBound(pc.P, env) {
+				negBoundRuns.Add(1)
+			}
 			floorHit := false
 			for acc, sb := range bounds {
 				if acc == "world" || sb.unbounded {
@@ -106,13 +144,24 @@ func c23() int {
 					if initial.Cmp(floor) < 0 {
 						floor.Set(initial)
 					}
+					if negSaved[acc] && debited[acc+"\x00"+asset] {
+						negSaveThenDebit.Add(1)
+					}
+					if initial.CmpAbs(two63) >= 0 || d.CmpAbs(two63) >= 0 {
+						wordSizedChecked.Add(1)
+					}
 					if final.Cmp(floor) < 0 {
 						clause := "none"
 						if sb.bound.Sign() > 0 {
 							clause = "bounded"
 						}
-						r.Violation("C23:bounded-source-overdrawn:clause="+clause,
-							fmt.Sprintf("account %s asset %s: initial %s, final %s < min(initial, -%s) = %s | program: %s", acc, asset, initial, final, sb.bound, floor, pc.Text),
+						sig, note := "C23:bounded-source-overdrawn:clause="+clause, ""
+						if negSaved[acc] {
+							sig += ":after-save-of-negative-amount"
+							note = " (an earlier `save` names this account with an amount that evaluates negative)"
+						}
+						r.Violation(sig,
+							fmt.Sprintf("account %s asset %s: initial %s, final %s < min(initial, -%s) = %s%s | program: %s", acc, asset, initial, final, sb.bound, floor, note, pc.Text),
 							replayObj(pc.Text, env, map[string]any{"postings": postingsString(res.Postings)}))
 					}
 					if final.Cmp(floor) == 0 && debited[acc+"\x00"+asset] {
@@ -152,6 +201,12 @@ func c23() int {
 			r.EngineError("vacuous: the bound was never binding (no program with a run ending exactly at min(initial,-bound) and a sibling input failing with insufficient funds)")
 		case overdraftUsedRuns.Load() == 0:
 			r.EngineError("vacuous: no run used a bounded overdraft down to exactly -bound")
+		case negSaveThenDebit.Load() == 0:
+			r.EngineError("vacuous: no successful run debited a bounded source after a `save` of a negative amount on that account")
+		case negBoundRuns.Load() == 0:
+			r.EngineError("vacuous: no successful run had an overdraft bound that evaluates negative")
+		case wordSizedChecked.Load() == 0:
+			r.EngineError("vacuous: no bounded source with a balance or a movement of 2^63 or more was checked")
 		}
 	}
 	cov := ev.Coverage{
@@ -167,12 +222,44 @@ func c23() int {
 		"runs_ending_exactly_at_floor":       atFloorRuns.Load(),
 		"runs_using_overdraft_down_to_bound": overdraftUsedRuns.Load(),
 		"programs_where_bound_is_binding":    bindingPrograms.Load(),
-		"traces_validated_against_impl":      st.Evals.Load(),
+		"runs_ok_with_save_of_an_expression": exprSaveRuns.Load(),
+		"bounded_sources_debited_after_save_of_negative_amount": negSaveThenDebit.Load(),
+		"runs_ok_with_negative_overdraft_bound":                 negBoundRuns.Load(),
+		"pairs_checked_with_balance_or_movement_ge_2^63":        wordSizedChecked.Load(),
+		"traces_validated_against_impl":                         st.Evals.Load(),
 	}
 	st.fill(cov)
 	return r.Finish(cov, []string{
 		"balance = initial balance of the case + all postings of the run (the machine's own Balances map is not consulted)",
-		"an account with several overdraft clauses in one script is held to the most permissive one (unbounded anywhere => not checked); the bound is taken per account, across assets",
+		"an account with several overdraft clauses in one script is held to the most permissive one (unbounded anywhere => not checked); the bound is taken per account, across assets; a bound that evaluates negative (`allowing overdraft up to [COIN 1] - [COIN 5]`) counts as 0",
+		"`save` is not part of the property's formula: whatever amount a `save` names (negative included), the account is held to min(initial, -bound)",
 		"same execution path as C22 (call sequence of MachineNumscriptRuntimeAdapter.Execute on an in-memory store)",
 	})
+}
+
+// srcHasNegativeBound: some `allowing overdraft up to X` of the program evaluates negative.
+func srcHasNegativeBound(p *gen.Program, env *gen.Env) bool {
+	var walk func(s *gen.Src) bool
+	walk = func(s *gen.Src) bool {
+		if s == nil {
+			return false
+		}
+		if s.K == gen.SOver {
+			if _, v, ok := env.Monetary(s.Bound); ok && v.Sign() < 0 {
+				return true
+			}
+		}
+		for _, c := range s.Sub {
+			if walk(c) {
+				return true
+			}
+		}
+		return false
+	}
+	for _, st := range p.Stmts {
+		if st.K == gen.StSend && walk(st.Src) {
+			return true
+		}
+	}
+	return false
 }
